@@ -14,7 +14,7 @@ import json, sys
 import cbgen
 
 CPPTYPE = {"u64": "uint64_t", "i32": "int32_t", "Pt": "Pt", "slice": "CSliceRef<uint8_t>", "ptr": "const uint8_t *", "void": "void",
-           "cbPt": "OpaqueCallback<Pt>", "cbu64": "OpaqueCallback<uint64_t>", "cont": "CGlueC"}
+           "fnptr": "void (*)(int32_t)", "cbPt": "OpaqueCallback<Pt>", "cbu64": "OpaqueCallback<uint64_t>", "cont": "CGlueC"}
 
 GROUP_DOC = """/**
  * Trait group potentially implementing `%s` traits.
@@ -46,7 +46,7 @@ CONT_DOC = """/**
 
 def proto(m):
     recv = {"ref": "const CGlueC *cont", "mut": "CGlueC *cont", "own": "CGlueC cont"}[m["recv"]]
-    args = "".join(", %s%sa%d" % (CPPTYPE[t], "" if CPPTYPE[t].endswith("*") else " ", i) for i, t in enumerate(m["args"]))
+    args = "".join(", " + cbgen.decl(CPPTYPE[t], "a%d" % i) for i, t in enumerate(m["args"]))
     ret = CPPTYPE[m["ret"]]
     return "%s%s(*%s)(%s%s);" % (ret, "" if ret.endswith("*") else " ", m["name"], recv, args)
 
